@@ -244,9 +244,13 @@ func fingerprint(dir string, res api.BuildResult) (string, map[string]string) {
 		}
 		return p
 	}
+	var order []string
 	for _, f := range res.OutputFiles {
 		parts["file:"+rel(f.Path)] = hashStr(string(f.Contents)) + ":" + f.Hash
+		order = append(order, rel(f.Path))
 	}
+	// the order of BuildResult.OutputFiles (results are joined in entry point / chunk order)
+	parts["order"] = strings.Join(order, "\n")
 	parts["metafile"] = hashStr(res.Metafile)
 	mc, _ := json.Marshal(res.MangleCache)
 	parts["manglecache"] = string(mc)
